@@ -41,6 +41,7 @@ PROJECTS = {
     "glob_names": ("f_glob", {"mode": "names", "cfg": 1}),
     "recycled_out": ("f_vol", {"log": "none"}),
     "glob_multi": ("f_glob", {"mode": "multi"}),
+    "scratch": ("f_scratch", {"stage": 1}),
 }
 # builds (restarts, no watching) that precede the watch session: here the plan ran again and
 # failed, so the step and its output are detached in the database when the watch session starts
@@ -50,6 +51,14 @@ PRELUDES = {
 }
 # sequences over several watch phases: ("REBUILD",) asks for a rebuild in between, in both variants
 MULTI_PHASE = {
+    # plan edits between watch phases: ("plan", family, knobs) rewrites the project files
+    "scratch": [
+        [("plan", "f_scratch", '{"stage": 2}'), ("REBUILD",), ("plan", "f_scratch", '{"stage": 3}')],
+        [("plan", "f_scratch", '{"stage": 3}'), ("REBUILD",), ("plan", "f_scratch", '{"stage": 2}')],
+        [("plan", "f_scratch", '{"stage": 2}'), ("REBUILD",), ("plan", "f_scratch", '{"stage": 1}')],
+        [("plan", "f_scratch", '{"stage": 2}'), ("REBUILD",), ("plan", "f_scratch", '{"stage": 3}'), ("REBUILD",),
+         ("modify", "src.txt")],
+    ],
     "glob_cfg": [
         [("delete", "cfg.txt"), ("create", "data/c.txt"), ("REBUILD",), ("restore", "cfg.txt")],
         [("create", "data/c.txt"), ("delete", "cfg.txt"), ("REBUILD",), ("restore", "cfg.txt")],
@@ -65,6 +74,7 @@ TARGETS = {
     "glob_names": {"files": ["data/a.txt", "data/b.txt", "data/c.txt"], "dirs": ["data"]},
     "recycled_out": {"files": ["out/deep/o.txt", "src.txt"], "dirs": ["out/deep", "out"]},
     "glob_multi": {"files": ["data/a/inp.txt", "data/c/inp.txt"], "dirs": ["data/a", "data/c", "data"]},
+    "scratch": {"files": ["src.txt", "o.txt"], "dirs": []},
     "glob_deep": {"files": ["src/pkg/mod/a.txt", "src/pkg/mod/c.txt"], "dirs": ["src/pkg", "src/pkg/mod"]},
     "glob_tree": {"files": ["data/a.txt", "data/c.txt", "out/a.out"], "dirs": ["data", "out"]},
     "glob_pattern": {"files": ["data/a.txt", "data/c.txt", "out/b.out"], "dirs": ["data"]},
@@ -152,6 +162,12 @@ def apply_op(world, op, originals):
     elif kind == "rename":
         if world.exists(path) and not world.exists(op[2]):
             world.rename(path, op[2])
+    elif kind == "plan":
+        import json
+
+        new = getattr(projects, op[1])(**json.loads(op[2]))
+        hist.sync(world, getattr(world, "cur_files", originals), new)
+        world.cur_files = new
     elif kind == "to_dir":
         if world.exists(path):
             world.remove(path)
